@@ -69,6 +69,8 @@ def print_case(args):
                 o = it.call(cref(model, cls), [e, make_point_concrete(it, extra)], {})
             elif cls == "Partial(early)":
                 o = it.call(cref(model, "Partial"), [e, extra], {"compute_early": True})
+            elif cls == "Partial(Variable object)":
+                o = it.call(cref(model, "Partial"), [e, build(it, ("Variable", extra), {})], {})
             elif cls == "Differential(early)":
                 o = it.call(cref(model, "Differential"), [e], {"compute_early": True})
             elif cls == "LocatedDifferential(early)":      # as handed out by an early Differential
@@ -162,7 +164,8 @@ def check(rep):
         cases += [("deriv", ("Derivative", tree, None)) if len(spec.variables(tree)) == 1 else None,
                   ("deriv", ("Differential", tree, None)), ("deriv", ("Differential(early)", tree, None)),
                   ("deriv", ("Partial", tree, "x")), ("deriv", ("Partial(early)", tree, "x")),
-                  ("deriv", ("Partial", tree, "long_name_2")),
+                  ("deriv", ("Partial", tree, "long_name_2")), ("deriv", ("Partial(Variable object)", tree, "x")),
+                  ("deriv", ("Partial(Variable object)", tree, "long_name_2")),
                   ("deriv", ("LocatedDifferential", tree, {"x": 2, "y": 4.5})),
                   ("deriv", ("LocatedDifferential(early)", tree, {"x": 2, "y": 4.5})),
                   ("deriv", ("LocatedDifferential", tree, {"x": 0.1 + 0.2, "y": 1 / 3})),
